@@ -49,6 +49,7 @@ def main(argv):
     try:
         common.import_impl()
         mod = importlib.import_module("props." + pid)
+        common.cover_start()
         ctx.extra_props = list(getattr(mod, "EXTRA_PROPS", []))
         try:
             central = json.load(open(os.path.join(common.VERIF, "harness", "extra_props.json")))["extra"].get(pid, [])
